@@ -519,6 +519,22 @@ func TaskID() string {
 	return t.ids
 }
 
+// LiveTasks lists (name@site) the tasks that have not finished. Meant to be called at a
+// quiescent instant (after Settle), when every other task is blocked.
+//
+//go:norace
+func LiveTasks() []string {
+	s := cur
+	me := self()
+	var out []string
+	for _, t := range s.tasks {
+		if t != me && !t.done {
+			out = append(out, t.name+"@"+t.site)
+		}
+	}
+	return out
+}
+
 // ---------------------------------------------------------------------------
 // records (history) and probes
 
